@@ -71,6 +71,9 @@ def main(tier, seed):
         if i % 2 == 1:
             tooltier.add_traits(prog, rng, b)
             emit_rust.assign_abi_names(prog)
+        if i % 3 == 0:
+            tooltier.add_special_methods(prog, rng, b)
+            emit_rust.assign_abi_names(prog)
         if i % 2 == 0 and tooltier.profiles.support(b)["namespacing"]:
             # types spread over several namespaces with cyclic references between them: headers then forward-declare / include across namespaces
             tooltier.reference_graph_features(prog, rng, keyword_fields=False, renames=False, namespaces=True)
